@@ -13,7 +13,7 @@ def targeted_pair(rng):
     """Pairs whose names or helper names are close to one another."""
     p = rng.randint(2, 9)
     t = rng.choice(["substring", "atr-tr", "tr-atr", "bbands-sma", "bbands-stdev", "supertrend-tr", "kc-atr",
-                    "name-prefix", "name-prefix"])
+                    "name-prefix", "name-prefix", "sibling", "sibling", "sibling"])
     mk = lambda kind, **kw: {"kind": kind, "kw": kw, "round_value": 4}
     if t == "name-prefix":
         # B's name is A's name plus "_<suffix>": B's helper series start with A's name too
@@ -24,6 +24,20 @@ def targeted_pair(rng):
             b["kw"]["input_value"] = rng.choice(["high", "close"])
         a["round_value"] = 4
         return (a, b, t) if rng.random() < 0.7 else (b, a, t)
+    if t == "sibling":
+        # two indicators of one class that agree in all parameters but one: a helper series named
+        # after only some of the parameters would be shared between them
+        k = rng.choice(["MACD", "MACD", "STOCH", "TSI", "ADX", "KC", "SUPERTREND", "BBANDS", "STDEVTHRES", "HMA", "RSI"])
+        a = X.gen_spec(rng, k, inputs=("close",))
+        a["round_value"] = 4
+        b = {"kind": k, "kw": dict(a["kw"]), "round_value": 4}
+        nums = [key for key, v in b["kw"].items() if isinstance(v, int) and not isinstance(v, bool)]
+        key = rng.choice(nums + (["input_value"] if "input_value" in b["kw"] else []))
+        if key == "input_value":
+            b["kw"][key] = "high"
+        else:
+            b["kw"][key] = b["kw"][key] + rng.choice([1, 2, 5])
+        return (a, b, t) if rng.random() < 0.5 else (b, a, t)
     if t == "substring":
         k = rng.choice(["EMA", "SMA", "WMA", "RMA"])
         return mk(k, period=p, input_value="close"), mk(k, period=p * 10 + rng.randint(0, 9), input_value="close"), t
